@@ -364,6 +364,23 @@ fn fixed_nested_cases(rep: &mut Report) {
         let after = show(&d);
         if after != before { rep.fail(json!({"property": "C12", "class": "undo-does-not-restore-the-content-before-the-step", "input": "fixed: an element re-created by undo and squashed behind its neighbour, then the container deleted and that undone", "expected": before, "got": after, "case": {"stream": 124, "index": 0}})); }
     }
+    // (C) found by the thorough tier (seed 7, 1 of 124 000 histories) and minimised: a nested text; one of its characters is deleted
+    // and re-created by undo (the copy stands left of the tombstone); an embed is inserted between the copy and the tombstone and a
+    // character behind the tombstone; the key is overwritten (which deletes the text with its children) and that is undone: the
+    // children have to come back in the order they had
+    {
+        use yrs::{GetString, Text, TextPrelim};
+        let (d, m, mut mgr) = mk();
+        let k1 = { let mut t = d.transact_mut_with("me"); m.insert(&mut t, "k1", TextPrelim::new("ab")) }; mgr.reset();
+        { let mut t = d.transact_mut_with("me"); k1.remove_range(&mut t, 1, 1); } mgr.reset();
+        mgr.undo_blocking();
+        { let mut t = d.transact_mut_with("me"); k1.insert_embed(&mut t, 2, 7); k1.push(&mut t, "d"); } mgr.reset();
+        let before = show(&d);
+        { let mut t = d.transact_mut_with("me"); m.insert(&mut t, "k1", 1); } mgr.reset();
+        mgr.undo_blocking();
+        let after = show(&d);
+        if after != before { rep.fail(json!({"property": "C12", "class": "undo-does-not-restore-the-content-before-the-step", "input": "fixed: a nested text with an element between a copy and the tombstone it re-creates, the key overwritten and that undone", "expected": before, "got": after, "case": {"stream": 124, "index": 2}})); }
+    }
     // (A) a map below a map key is deleted and re-created by undo; another origin then writes a key of the re-created map; a further
     // undo of the tracked origin (which would restore an older value of that key) must not erase what the other origin wrote
     {
